@@ -973,7 +973,7 @@ func runJSON(w *Worker) {
 	// generated values
 	r := w.Rand("values")
 	o := genOpts{utf8only: true, floats: true, intKeys: true, maxDepth: 4}
-	n := w.Pick(1000, 100000) / w.N
+	n := w.Pick(3000, 100000) / w.N
 	mutPer := 40
 	for i := 0; i < n; i++ {
 		v := genValue(r, o, 0)
